@@ -7,7 +7,7 @@ rows=[]
 for d in sorted(glob.glob('/verif/seeded/S*')):
     m=json.load(open(os.path.join(d,'meta.json')))
     o=m['our_check']; h=m.get('history',[])
-    first='caught' if not h else ('MISSED' if not h[0].get('caught') else 'caught')
+    first=('caught' if o['caught'] else 'MISSED') if not h else ('MISSED' if not h[0].get('caught') else 'caught')
     cls=re.sub(r' runs=\d+','',o['classes'].replace('class=','')).split()
     rows.append("| %s | %s | %s | %s | %s |"%(m['id'],m['breaks_property'],first,'caught' if o['caught'] else 'MISSED',', '.join(cls[:3])+(' …' if len(cls)>3 else '')))
 table="<!-- SEEDED-TABLE-BEGIN -->\n| seeded change | property | first quick run | now | violation classes reported |\n|---|---|---|---|---|\n"+"\n".join(rows)+"\n<!-- SEEDED-TABLE-END -->"
